@@ -28,7 +28,7 @@ FOCUS = {
 }
 
 SESSION_OPTS = [({}, 10), ({'immediate': True}, 2), ({'optimistic': False}, 2), ({'serializable': True}, 1),
-                ({'strict': True}, 1)]
+                ({'strict': True}, 1), ({'ddl': True}, 1)]
 
 
 def gen_case(seed, i, tier, focus='default', loading=False, tag='seq'):
